@@ -305,6 +305,12 @@ func c02Reconfigure(c *Ctx, n gnode, count bool) {
 		{"SetParen()", func(g *gnode) { g.Paren = !g.Paren }, func(s stackage.Stack) { s.SetParen() }},
 		{"SetNoPadding()", func(g *gnode) { g.NoPad = !g.NoPad }, func(s stackage.Stack) { s.SetNoPadding() }},
 		{"SetLeadOnce()", func(g *gnode) { g.Lonce = !g.Lonce }, func(s stackage.Stack) { s.SetLeadOnce() }},
+		// options that govern what may be stored or how positions are addressed: the rendering of what is
+		// already held must not notice them
+		{"SetNoNesting()", func(g *gnode) {}, func(s stackage.Stack) { s.SetNoNesting() }},
+		{"SetReadOnly()", func(g *gnode) {}, func(s stackage.Stack) { s.SetReadOnly() }},
+		{"SetNegativeIndices()", func(g *gnode) {}, func(s stackage.Stack) { s.SetNegativeIndices() }},
+		{"SetForwardIndices()", func(g *gnode) {}, func(s stackage.Stack) { s.SetForwardIndices() }},
 	}
 	size := len(n.String())
 	for _, tg := range targets {
